@@ -235,7 +235,9 @@ class _RealFinder:
             # Check if relative import
             # XXX: Looks like a hack...
             prev_word_end = self._find_last_non_space_char(prev - 1)
-            if self.code[prev_word_end - 3 : prev_word_end + 1] == "from":
+            if self.code[prev_word_end - 3 : prev_word_end + 1] == "from" and (
+                prev_word_end < 4 or not self._is_id_char(prev_word_end - 4)
+            ):
                 offset = prev
                 break
 
